@@ -234,6 +234,38 @@ example : unixAuthority [99, 111, 97, 112, 58, 47, 47, 104, 47, 37, 122, 122] = 
 -- and it excludes something: "coap://%2Fs" (M: port 0, host "%2Fs"; outside S)
 example : unixAuthority [99, 111, 97, 112, 58, 47, 47, 37, 50, 70, 115] = true := by decide
 
+/-- (P2, "scheme, host (incl. IPv6 literals), port and default ports are recognised") S — and therefore libcoap —
+accepts every URI text put together from its parts, and gives the parts back: any scheme `e` of the table (T1) that
+the entry point allows, "://", any non-empty host without ':' '/' '?' and not starting with '[' — or any non-empty
+IPv6 literal text without ']' in brackets —, no port / ":" / ":" and any digit string of value ≤ 65535 (leading
+zeros allowed), then anything S's `pathQuery` takes (nothing, "/path", "?query", "/path?query" with well-formed
+escapes).  Scheme id, host (without the brackets), the explicit port or else the scheme's default, path and query
+come back exactly; nothing is "recognised" only because S and M agree on rejecting.
+`v6 = true ∨ unixStart h = false` keeps the Unix-socket notation out of the libcoap half (D16f). -/
+theorem uri_recognised (proxy : Bool) (e : Bytes × Nat × Bool × Nat) (he : e ∈ Generated.Uri.schemes)
+    (hpx : e.2.2.1 = true → proxy = true) (h : Bytes) (v6 : Bool) (ds : Option Bytes) (rest path query : Bytes)
+    (hh : HostOk h v6) (hp : PortOk ds) (hr : TailStart rest) (hpq : pathQuery rest = some (path, query))
+    (hu : v6 = true ∨ unixStart h = false) :
+    Spec.Uri.splitUri Generated.Uri.schemes proxy (e.1 ++ [0x3a, 0x2f, 0x2f] ++ hostText h v6 ++ portText ds ++ rest) =
+      some ⟨e.2.2.2, h, portValue e.2.1 ds, path, query⟩ ∧
+    MU.splitUriSub proxy (e.1 ++ [0x3a, 0x2f, 0x2f] ++ hostText h v6 ++ portText ds ++ rest) =
+      R.ok ⟨e.2.2.2, h, portValue e.2.1 ds, path, query⟩ := by
+  have hS := splitUri_compose proxy e he hpx h v6 ds rest path query hh hp hr hpq
+  refine ⟨hS, ?_⟩
+  rw [(split_uri_eq_spec proxy _ (unixAuthority_compose e he h v6 ds rest hr hu)).2, hS]
+  rfl
+
+-- "coaps+tcp" "://" "[" "2001:db8::1" "]" ":" "0443" "/a%20b?x": scheme 3, host without brackets, port 443
+example : ([99, 111, 97, 112, 115, 43, 116, 99, 112], 5684, false, 3) ∈ Generated.Uri.schemes ∧ HostOk [50, 48, 48, 49, 58, 100, 98, 56, 58, 58, 49] true ∧ PortOk (some [48, 52, 52, 51]) ∧
+    TailStart [47, 97, 37, 50, 48, 98, 63, 120] ∧ pathQuery [47, 97, 37, 50, 48, 98, 63, 120] = some ([97, 37, 50, 48, 98], [120]) ∧
+    portValue 5684 (some [48, 52, 52, 51]) = 443 := by
+  refine ⟨by decide, ⟨by decide, by decide⟩, ⟨by decide, by decide⟩, Or.inr ⟨_, Or.inl rfl⟩, by decide, by decide⟩
+-- no port: "coap" "://" "example.com" "" → the default 5683
+example : HostOk [101, 120, 97, 109, 112, 108, 101, 46, 99, 111, 109] false ∧ PortOk none ∧ TailStart [] ∧ portValue 5683 none = 5683 ∧
+    Spec.Uri.splitUri Generated.Uri.schemes false ([99, 111, 97, 112] ++ [0x3a, 0x2f, 0x2f] ++ hostText [101, 120, 97, 109, 112, 108, 101, 46, 99, 111, 109] false ++ portText none ++ []) =
+      some ⟨0, [101, 120, 97, 109, 112, 108, 101, 46, 99, 111, 109], 5683, [], []⟩ := by
+  refine ⟨⟨by decide, by decide⟩, trivial, Or.inl rfl, rfl, by decide⟩
+
 /-! ### the buffer writers coap_split_path / coap_split_query at full strength (D16b) -/
 
 /-- (P1, coap_split_path) a buffer of `length + 2·segments + 1` bytes (a fortiori D16b's `length + 3·segments`, there
